@@ -644,9 +644,12 @@ func (ex *Exec) makeInterface(st *State, v Val, t types.Type) Val {
 	}
 	if _, ok := t.Underlying().(*types.Pointer); ok {
 		if v.P != nil && !v.P.clean() {
-			panic(unsupported("interior pointer converted to interface"))
+			// an interior pointer escapes into an interface (e.g. a gopacket DecodingLayer registration): it is replaced by a
+			// reference to a fresh object; accesses through the interface are over-approximated on reads and untracked on writes
+			ex.used["abstracted: interior pointer converted to interface ("+shortType(t)+"): reads through it over-approximated, writes untracked"] = true
+			v = Val{T: v.T, L: []string{ex.alloc(st)}}
 		}
-		out := Val{L: []string{ite(eq(v.L[0], "0"), tag, tag), v.L[0]}}
+		out := Val{L: []string{tag, v.L[0]}}
 		ex.noteErrorCreated(st, out, t, v.L[0])
 		return out
 	}
